@@ -64,6 +64,7 @@ MODULE_PATHS = {
     'h_geno_builder': 'input::genotype::reader::builder::verif_kani',
     'h_spectrum': 'spectrum::verif_kani',
     'h_project': 'spectrum::project::verif_kani',
+    'h_site_builder': 'input::site::reader::builder::verif_kani',
 }
 _FULL = {}
 
